@@ -3,9 +3,66 @@
 import json, os
 ROOT = os.path.dirname(os.path.dirname(os.path.abspath(__file__)))
 T = {
- "C01": ("reference-semantics monitor on RecurrenceSolver.get / CLI output", "4/C01",
-         "held on the observed executions: closed forms returned by the real pipeline (API path and printed CLI lines) equal the exact expectations computed by an independent interpreter of the source program at n=0..N for sampled programs, goals and parameter values; sampling, not proof",
-         "oracle = polarmon/ref/engine.py (exact rational forward propagation, atom polynomials for continuous draws) + ref/laws.py; sympy for evaluating Polar's expressions"),
+ "C01": ("reference-semantics monitor on RecurrenceSolver.get and the printed CLI lines", "4/C01",
+         "held on the observed executions: closed forms returned by the real pipeline (API path and printed CLI lines incl. --at_n) equal the exact expectations computed by an independent interpreter of the source program at n=0..N for sampled programs, goals and parameter values; sampling, not proof",
+         "oracle = polarmon/ref/engine.py (exact rational forward propagation, atom polynomials for continuous draws) + ref/laws.py; sympy evaluates Polar's expressions"),
+ "C02": ("pass-exit monitor (every depth-0 Transformer.execute) + IR interpreter, exact joint law and scramble invariance", "4/C02",
+         "held on the observed executions: after every normalization pass the stage program, executed by the oracle's IR interpreter, induces the same joint law over the source variables as the source AST at boundaries 0..N, also when all auxiliaries are overwritten at every boundary",
+         "documented meaning of the IR ('x = rhs | cond : default'); continuous programs compared through mixed moments up to degree 3"),
+ "C03": ("monitor on RecBuilder.get_recurrences: structure, state-wise one-step identity, expectation identity", "4/C03",
+         "held on the observed executions: every equation of every generated system is closed, has constant coefficients, matches the matrix form and is an exact one-step identity on all reachable boundary states (discrete) / in expectation for n<N, initial values equal E_0",
+         "law of the normalized program (validated against the source by C02) as reference"),
+ "C04": ("monitor on Solver.get / is_exact for directly built Recurrences; exact matrix iteration oracle", "4/C04",
+         "held on the observed executions: closed forms of both solvers equal A^n v on s+t+d+2 consecutive n (decides all n for the instance: both sides are C-finite), exactness flag and rounding bound checked under the numeric-root options",
+         "exact Fraction matrix iteration; C-finite argument for the n range; generous deviation bound for rounded results"),
+ "C05": ("monitor on program.typedefs at TypeInferer exit and end of normalization; reachable-value exploration", "4/C05",
+         "held on the observed executions: every value assigned to or held at a boundary by a variable with an inferred finite type within N iterations (incl. after the guard is false) belongs to the type",
+         "IR meaning as C02; auxiliaries start undefined (symbolic generator), values derived from a never-assigned auxiliary are not counted"),
+ "C06": ("postcondition monitor on InvariantIdeal.compute_basis (direct tuples and real CLI --invariants)", "4/C06",
+         "held on the observed executions: every reported basis polynomial vanishes exactly on the goal sequences at 12 consecutive n past the special cases (closed forms and, end-to-end, the oracle's own moment values)",
+         "exact sympy arithmetic / minimal polynomials for algebraic bases"),
+ "C07": ("completeness monitor on InvariantIdeal.compute_basis: exact nullspace of monomial evaluations, symbolic confirmation, ideal membership", "4/C07",
+         "held on the observed executions up to degree D: every confirmed polynomial relation of degree <= D among the goal sequences reduces to 0 modulo the reported basis",
+         "degree bound D (3 quick / 4 thorough); sympy groebner/reduced used for membership only"),
+ "C08": ("postcondition monitors on the real distribution classes and on DistTransformer output", "4/C08",
+         "held on the observed executions: get_moment(k), support, discreteness, cf, mgf, mgf_exists_at agree with textbook formulas / quadrature for swept parameter vectors; location/scale rewriting preserves the first 6 conditional moments",
+         "ref/laws.py textbook formulas cross-checked by mpmath quadrature"),
+ "C09": ("monitor on get_moment_given_termination and GoalsAction --after_loop results", "4/C09",
+         "held on the observed executions: the conditional sequence equals E[M 1{stopped by n}]/P(stopped by n) exactly at every n<=N with positive stopping probability; reported limits equal the numerically converged exact sequence",
+         "'stopped by n' = source guard false in the state after n iterations; limits compared only after convergence of the exact sequence"),
+ "C10": ("monitor on the printed -sens / -sens_diff lines; exact polynomial interpolation in the parameter", "4/C10",
+         "held on the observed executions: both sensitivity methods equal the exact derivative of E_n[M] (recovered by exact interpolation of the reference moments in p) at n<=N and two parameter values",
+         "parameter enters polynomially (generator), degree confirmed by an extra point"),
+ "C11": ("monitors on raw_moments_to_centrals/_cumulants/comb, goal handlers and printed tail bounds, Gram-Charlier / Cornish-Fisher objects", "4/C11",
+         "held on the observed executions: central moments and cumulants equal those of the exact law (definition / partition formula), tail bounds are valid where the stated assumption holds, expansions satisfy their defining properties",
+         "exact law from the reference engine; Gaussian moment integration; Abramowitz-Stegun polynomials"),
+ "C12": ("scripted-randomness monitor on Simulator.simulate (random.choices/choice, scipy rvs replaced by a recording tape), lock-step replay", "4/C12",
+         "held on the observed executions: for every enumerated resolution of the random choices the simulator's random calls carry the laws the semantics demands and its states equal the reference interpreter's after every iteration; real samplers stay in their declared support",
+         "scipy parametrisation translation table; float tolerance 1e-9; no statistical tests"),
+ "C13": ("postcondition monitors on FunctionalAssignment.get_func_moment/get_const_moment + program-level comparison", "4/C13",
+         "held on the observed executions: values used for E[X^a sin^b cos^c], E[X^a e^{cX}] and Sin/Cos/Exp of constants equal 50-75 digit quadrature within the documented rounding; non-existent exponential moments and Sin-Exp mixtures are rejected",
+         "mpmath quadrature on the oracle's own densities"),
+ "C14": ("monitors on UnsolvInvSynthesizer.synth_inv and SolvLoopSynthesizer.synth_loop", "4/C14",
+         "held on the observed executions: E[Q(state_n)] on the exact law of the original loop equals f(n); synthesized loops reproduce E[v] and E[Q] at n<=N",
+         "free solution parameters instantiated randomly; first moments only for synthesized loops"),
+ "C15": ("monitors on BifParser.parse_file, CodeGenerator.generate_code, query results of the real CLI", "4/C15",
+         "held on the observed executions: all notations of a table parse to the generator's CPTs, malformed rows are rejected, the generated loop's one-iteration law equals the network joint, query answers equal enumeration exactly",
+         "exact enumeration of the joint distribution; own parser + engine for the generated program"),
+ "C16": ("postcondition monitor on ExponentLattice.compute_basis", "4/C16",
+         "held on the observed executions: returned vectors are relations, independent, and generate the full lattice (own integer kernel for rationals, unique-factorisation atoms / box enumeration for algebraic numbers)",
+         "own integer/field arithmetic in gen/algnums.py"),
+ "C17": ("differential monitor over settings combinations with the exact oracle as arbiter", "4/C17",
+         "held on the observed executions: every successful analysis under cond2arithm / transform_categoricals / forced cyclic solver / explicit types equals the oracle (hence each other); numeric-root results are flagged rounded and deviate within the precision",
+         "settings written exactly as cli/argument_parser._set_settings does"),
+ "C18": ("exception-event monitor on normalize/RecBuilder/Solver for oracle-certified documented-class programs", "4/C18",
+         "held on the observed executions except for known findings: programs whose documented-class membership is established by the oracle are accepted and every effective goal yields a closed form equal to the oracle",
+         "class membership decided by the reference engine (finite reachable value sets of condition variables)"),
+ "C19": ("monitor on Parser.parse_string over spellings of one AST, hostile identifiers, ill-forming edits", "4/C19",
+         "held on the observed executions: all spellings of an AST give closed forms agreeing with the oracle and each other; every targeted ill-formed edit and invalid constant probability vector is rejected",
+         "own parser with Python precedence (self-tested against eval); edits judged against syntax.lark by construction"),
+ "C20": ("history monitor: same analysis in fresh interpreters after different histories / goal orders / PYTHONHASHSEED", "4/C20",
+         "held on the observed executions: semantic summaries (values at n<=N, types, invariants, refusal type) equal those of a fresh single-analysis interpreter",
+         "fresh interpreter with empty history as reference; equality up to auxiliary names"),
 }
 CLAIMED = [l.strip() for l in open(os.path.join(ROOT, "tools", "claimed.txt")) if l.strip()]
 NA_REASON = {}
